@@ -1424,9 +1424,20 @@ class TestSubprocess:
 
                 # Make sure the termination signal actually kills the process
                 # group, otherwise retry with a SIGKILL.
+                loop = asyncio.get_running_loop()
+                deadline = loop.time() + 0.5
                 with suppress(asyncio.TimeoutError):
                     await asyncio.wait_for(p.wait(), timeout=0.5)
                 if p.returncode is not None:
+                    # The group leader is gone, but other members of its
+                    # process group (children of a wrapper script...) may have
+                    # ignored the signal: give them the rest of the grace
+                    # period, then kill whatever is left of the group.
+                    with suppress(ProcessLookupError):
+                        while loop.time() < deadline:
+                            os.killpg(p.pid, 0)
+                            await asyncio.sleep(0.05)
+                        os.killpg(p.pid, signal.SIGKILL)
                     return None
 
                 os.killpg(p.pid, signal.SIGKILL)
